@@ -46,6 +46,36 @@ PROPS["C07"] = dict(
     assumptions=["one swarm worker (sharding is C16)", "IndexMap / ArrayVec / BTreeMap semantics as modelled"],
 )
 
+PROPS["C10"] = dict(
+    suites=[udp_suite("udp-swarm-expiry", 0b01011, monitor="mon_c01", count_quick=320),
+            http_suite("http-swarm-expiry", 0b01011, monitor="mon_c07", count_quick=320),
+            dict(name="valid-until", harness="valid-until", imports=["Expiry"], case_type="N * N * bool * list (N * bool)",
+                 check="vu_code", monitor=None, count_quick=400, count_thorough=20000, nontrivial_bits=3, shrink=False)],
+    rule="udp/http: the C01/C07 histories, whose cleaning passes are placed one second before, at, and one second after stored deadlines "
+         "(inline and heap maps, seeders and leechers, re-announces); valid-until: ValidUntil::new/new_with_now/valid on the real code under the "
+         "mock clock for edge and random (sample, age) pairs, probed at deadline-2..deadline+1, 0, 2^32-2, 2^32-1; non-trivial = history crosses "
+         "inline->heap->inline (swarm suites) / sample+age exceeds u32::MAX (valid-until)",
+    modelled="ValidUntil arithmetic (Model/Expiry.v) and the three clean functions (PeerMap.v pm_clean, UdpSwarm.v, HttpSwarm.v; ws in WsSwarm.v)",
+    assumptions=["the property is about the worker's time sample; when the cleaning timer fires and how stale the sample is (<= 1 s / 256 polls) are runtime"],
+)
+
+_c20_udp = udp_suite("udp-swarm-reports", 0b11100, monitor="mon_c20", count_quick=400)
+_c20_udp["classify"] = ("c20_class_code", {1: "tally-peer-id-change", 2: "forbidden-torrent-with-peers"})
+PROPS["C20"] = dict(
+    suites=[_c20_udp,
+            dict(name="export-crash", harness="export-crash", imports=["Export"], case_type="nat * bool * nat * list (bool * N)",
+                 check="export_code", monitor=None, count_quick=60, count_thorough=600, nontrivial_bits=3, shrink=False)],
+    rule="udp-swarm histories with statistics.peer_clients on in 2/3 of them, a statistics output enabled and exports written on every clean: "
+         "the PeerAdded/PeerRemoved stream is read from the real statistics channel, totals from the SwarmWorkerStatistics atomics, the export "
+         "file is read back; export-crash: a child process runs a cleaning pass with 0..4 exported torrents and aborts itself after the k-th "
+         "export step (hook H4: created / each line / flushed / closed / renamed), for k = 0..n+5, with and without a previous file; "
+         "non-trivial = inline->heap->inline (histories) / an abort strictly inside the export (crash suite)",
+    modelled="clean_and_update_statistics / clean_and_get_statistics (totals, messages, export lines) in UdpSwarm.v; the statistics worker's "
+             "tally fold and the export file protocol in Export.v",
+    assumptions=["process crashes, not power loss (no fsync)", "the configured export path does not itself end in .tmp",
+                 "statistics worker timing and the HTML/prometheus rendering are runtime"],
+)
+
 LEVELS = {
     "C01": dict(
         text="Refinement theorem (Coq, induction over all finite histories, all offsets, any inline capacity): the sequential model of "
@@ -67,6 +97,23 @@ LEVELS["C07"] = dict(
          "and a cleaning pass leaves no empty torrent; tied to the real storage by in-Coq comparison of generated histories.",
     design_ref="DESIGN.md §7 C07", technique="Coq refinement proof + in-Coq correspondence check against the real http storage",
     note="Trusted: Coq kernel/vm_compute, model HttpSwarm.v/PeerMap.v, harness with hooks H1/H5. One swarm worker.")
+
+LEVELS["C10"] = dict(
+    text="Theorems for all samples, ages, clean times, representations and neighbours: the deadline is sample+age (saturating at u32::MAX), "
+         "validity is exactly now < deadline, a cleaning pass keeps exactly the entries with a future deadline, a re-announce installs a fresh "
+         "deadline; tied to the code by histories that clean at deadline-1/deadline/deadline+1 and by direct runs of ValidUntil under a mock clock.",
+    design_ref="DESIGN.md §7 C10", technique="Coq iff-theorems + in-Coq correspondence (histories around deadlines, ValidUntil arithmetic)",
+    note="Trusted: Coq kernel, models, harness, mock-clock hook H1. Timer firing and sample staleness are runtime (partial).")
+
+LEVELS["C20"] = dict(
+    text="Theorems: torrent totals = stored torrents; peers total = unexpired peers (= stored peers unless a torrent with peers is forbidden in "
+         "that pass); export lines = exactly the torrents with a peer after expiry, once each, true counts; tally = fold of +1/-1 and each "
+         "announce / expiry changes per-id counts exactly as its messages say when the replaced entry carries the same id; for EVERY crash "
+         "point and write-through behaviour the export path holds the old or the new complete file. Two recorded findings (tallies drift "
+         "on peer-id change; forbidden torrents with peers stay counted) are refuted in Coq with witnesses and listed in known_findings.json.",
+    design_ref="DESIGN.md §7 C20", technique="Coq theorems (induction, crash-prefix quantification) + in-Coq correspondence incl. crash injection",
+    note="Trusted: Coq kernel, models, harness, probes H4. Partial: no fsync; statistics thread timing; global (whole-tracker) tally sum "
+         "is stated per torrent.")
 
 NOT_APPLICABLE = [
     dict(property_id=p, reason="check not built yet in this round (work in progress; planned per DESIGN.md §10)")
